@@ -490,6 +490,7 @@ theorem sim_ss (raw : List Bytes) (cfg : Cfg)
         ((c1'.gens = [] ∧ c1'.st.ntok = st.ntok ∧ token = q.ck ∧ s.liveAt token = true ∧ q.failGet = false ∧
             ∃ R d0, Bound q c1 R ∧ lookup st.sess R = some (some ⟨token, d0⟩)) ∨
          (c1'.gens = [token] ∧ c1'.st.ntok = st.ntok + 1 ∧ token = gen st.ntok)) →
+        (cfg.single = true → isSafe q.method = false → c1'.gens = [token]) →
         ∃ s', specReq (specConfig cfg.backend cfg.ext cfg.single cfg.idle raw) s q
             (obsOf cfg c2.st (assemble c2 r2)) = .ok s' ∧
           s'.now = c2.st.now ∧ IssuedOK gen c2.st.ntok s'.issued ∧
@@ -498,7 +499,7 @@ theorem sim_ss (raw : List Bytes) (cfg : Cfg)
       · subst htok
         rw [finish_fresh] at hf
         refine H _ _ hf hc1now rfl (fun R h => h) rfl rfl rfl ?_ (hgen _)
-          (Or.inr ⟨by simp [hc1gens], by simp [hc1ntok], by rw [hc1ntok]⟩)
+          (Or.inr ⟨by simp [hc1gens], by simp [hc1ntok], by rw [hc1ntok]⟩) (fun _ _ => by simp [hc1gens])
         show IssuedOK gen (c1.st.ntok + 1) (s.issued ++ (c1.gens ++ [gen c1.st.ntok]))
         rw [hc1gens, hc1ntok]
         exact issuedOK_append gen _ _ hI
@@ -506,9 +507,16 @@ theorem sim_ss (raw : List Bytes) (cfg : Cfg)
         obtain ⟨hk1, hnfg, R, d0, hB, hheld, hle⟩ := hUkept htok
         obtain ⟨hl1, hl2⟩ := held_spec gen cfg.idle st.ntok st.now st.sess s hnow hI hS R q.ck d0 hheld hle
         refine H _ _ hf hc1now rfl (fun R h => h) rfl rfl rfl ?_ htok
-          (Or.inl ⟨hc1gens, hc1ntok, hk1, by rw [hk1]; exact hl1, hnfg, R, d0, hB, by rw [hk1]; exact hheld⟩)
-        rw [hc1gens, hc1ntok, List.append_nil]; exact hI
-    intro c1' token hft hn1 hss1 hB1 hfg1 hfs1 hfd1 hI1 hne hT
+          (Or.inl ⟨hc1gens, hc1ntok, hk1, by rw [hk1]; exact hl1, hnfg, R, d0, hB, by rw [hk1]; exact hheld⟩) ?_
+        · rw [hc1gens, hc1ntok, List.append_nil]; exact hI
+        · intro hsg hu
+          exfalso
+          dsimp only [DecSS] at hdec
+          rw [if_neg (by simp [hu])] at hdec
+          obtain ⟨_, _, _, _, _, _, R', d', _, _, _, _, hsm⟩ := hdec
+          rw [if_pos hsg] at hsm
+          exact htok hsm.1
+    intro c1' token hft hn1 hss1 hB1 hfg1 hfs1 hfd1 hI1 hne hT hSU
     obtain ⟨hg2, hn2, hnt2⟩ : Frame c1' c2 := by
       have := tail_frame cfg sgen q c1' token; rw [hft] at this; exact this
     obtain ⟨hnd2, hshape⟩ := tail_ss cfg sgen hsgen hb q c1' token c2 r2 hft
@@ -623,7 +631,7 @@ theorem sim_ss (raw : List Bytes) (cfg : Cfg)
       obtain ⟨R, hTO, hscR⟩ := hTO
       obtain ⟨live2, hcc, hS2⟩ := sess_shapeA' gen hinj cfg.idle st.ntok c1'.st.ntok st.now
         (specConfig cfg.backend cfg.ext cfg.single cfg.idle raw) rfl s hnow st.sess c2.st.sess hS q o token R
-        hI' hsub (hock.trans hck) hne hTO hscR hofd
+        hI' hsub (hock.trans hck) hne hTO hscR (fun h1 h2 => hog.trans (hSU (by simpa [specConfig] using h1) h2)) hofd
       refine hclose live1 live2 (hreach hop (fun h => absurd (h.symm.trans hsafe) (by decide))) ?_ hS2
       simp only [hop, if_true]
       rw [hl1]; exact hcc
@@ -671,6 +679,7 @@ theorem sim_ss (raw : List Bytes) (cfg : Cfg)
       obtain ⟨live2, hcc, hS2⟩ := sess_shapeA gen hinj cfg.idle st.ntok c1'.st.ntok st.now
         (specConfig cfg.backend cfg.ext cfg.single cfg.idle raw) rfl s hnow st.sess c2.st.sess hS q o token W live1
         hI' hlook hW (hosc.trans hsc) (hock.trans hck) hne hL1 hTO hnodel
+        (fun h1 h2 => hog.trans (hSU (by simpa [specConfig] using h1) h2))
         (fun _ _ => by
           rw [← hoeq]
           refine probeHas_sess cfg _ _ W token (st.now + cfg.idle) _ hbs ?_ ?_
